@@ -140,7 +140,7 @@ def run(tier):
         # (b') ONE firmware package (with a session-key encrypted component of 64 KiB) delivered as two BEC2 files with two
         # session keys: in each file the key the blocks wrap is the key that authenticates the directory AND encrypts the component
         pkg = Bf3File({}, [L.mk_comp({0xC3: b"\x03", 0xC2: b"\x02"}, bytes((j * 89 + j // 253) % 256 for j in range(65536 + 16)), 65536 + 16, True)])
-        for _k in range(2):
+        for _k in range(0 if os.environ.get("VERIF_ENVPASS") else 2):     # (a matter of size, not of the interpreter mode: first pass only)
             pl = G.Plan(r, rcpts, ["update"], explicit_key=True)
             fb = Bec2File(pkg, pl.blocks, pl.key)
             tb, evb = G.rec_bec2_write(rec, seams, orc, fb, pl.meta, pl.encs_w, C.enc_specs(pl))
